@@ -133,9 +133,9 @@ theorem class_shape (cx : Ctx) (name : String) (bases : List Expr) (kws : List K
     global or lives in an enclosing function's dictionary), and is read back from it -/
 theorem member_store_load (n : Nsp) (x : String) (v : Expr) (i : SymInfo) (hk : n.kind = .class_)
     (hs : n.sym.lookup x = some i) (hg : i.isDeclaredGlobal = false) (hgl : i.isGlobal = false)
-    (ho : n.outerMap.lookup x = none) (hc : ¬ x ∈ n.globalsInComp) :
+    (ho : n.outerMap.lookup x = none) (hc : ¬ x ∈ n.globalsInComp) (hcl : x ≠ "__class__") :
     n.getAssign x v = .ok (dictSetitem n.dictName x v) ∧ n.getLoad [] x = .ok (dictLoad n.dictName x) := by
-  simp [Nsp.getAssign, Nsp.getLoad, hk, hs, hg, hgl, ho, hc]
+  simp [Nsp.getAssign, Nsp.getLoad, hk, hs, hg, hgl, ho, hc, hcl]
 
 /-- the last `metaclass=` keyword wins and is removed from the keywords passed on; the other
     keywords keep their order -/
